@@ -7,6 +7,7 @@ import (
 	"hash/fnv"
 	"io"
 	"log/slog"
+	"regexp"
 	"sort"
 	"strings"
 	"sync"
@@ -182,8 +183,18 @@ func draw(rt *rapid.T) Scenario {
 		default:
 			r.Alert = fmt.Sprintf("Alert%d", i)
 		}
-		if rapid.IntRange(0, 9).Draw(rt, "commented") == 0 {
-			r.Comments = append(r.Comments, fmt.Sprintf("# pint disable promql/series(m%d)", rapid.IntRange(0, nm-1).Draw(rt, "dm")))
+		if rapid.IntRange(0, 3).Draw(rt, "commented") == 0 {
+			// an exemption for one metric - preferably one the expression really uses, so that the
+			// selectors after it still have to be checked
+			dm := rapid.IntRange(0, nm-1).Draw(rt, "dm")
+			if m := regexp.MustCompile(`m(\d)`).FindStringSubmatch(r.Expr); m != nil && rapid.Bool().Draw(rt, "dmfirst") {
+				dm = int(m[1][0] - '0')
+			}
+			if rapid.Bool().Draw(rt, "snoozed") {
+				r.Comments = append(r.Comments, fmt.Sprintf("# pint snooze 2099-01-01 promql/series(m%d)", dm))
+			} else {
+				r.Comments = append(r.Comments, fmt.Sprintf("# pint disable promql/series(m%d)", dm))
+			}
 		}
 		sc.Rules = append(sc.Rules, r)
 	}
